@@ -289,7 +289,8 @@ Example C01_LLDP_nonvacuous : wf ex_lldp /\ bytes_ok (arr ex_lldp) /\ LLDP_IsVal
 Proof. exact LLDP_valid_ex. Qed.
 Print Assumptions C01_LLDP_nonvacuous.
 Example C01_RS_nonvacuous : wf ex_rs /\ bytes_ok (arr ex_rs) /\ RS_IsValid ex_rs = Ok true /\
-  RS_SourceLLA ex_rs = Ok (VR 10 6) /\ RS_Options ex_rs = Ok VU.
+  RS_SourceLLA ex_rs = Ok (VR 10 6) /\
+  RS_Options ex_rs = Ok (ndp_show (mkSt 0 [] 0 [] [2;0;0;0;0;1] [] 0 [] (0, 0, 0, []))).
 Proof. exact RS_valid_ex. Qed.
 Print Assumptions C01_RS_nonvacuous.
 Example C01_LLC_nonvacuous : wf ex_llc /\ bytes_ok (arr ex_llc) /\ LLC_IsValid ex_llc = Ok true /\ LLC_Payload ex_llc = Ok VNil.
